@@ -41,6 +41,7 @@ Definition book0 : book := mkBook SNone false.
 Inductive rquery := QNodes (pat : path) | QNodeTemplate (n : path) | QEdges | QEdge (s t : string).
 Inductive mop :=
 | MRead (q : rquery)
+| MSubEdges (p : path)            (* get_edges / collect_edges called on the sub-circuit self.circuits[p1].circuits[p2]... *)
 | MToYaml
 | MDeepcopy
 | MUpdateTemplate (es : list edge)
@@ -99,6 +100,26 @@ Definition run_book (b : book) (vec : bool) : book :=
                | SFinal vl mixed => SFinal vec (mixed || negb (Bool.eqb vl vec))
                end) false.
 
+(* the sub-circuit object reached by a path of circuit names, with its hierarchy depth / the sub-tree of the denotation *)
+Fixpoint sub_circ (d : nat) (h : heap) (c : id) (p : path) {struct p} : option (nat * id) :=
+  match p with
+  | [] => Some (d, c)
+  | k :: rest =>
+    match d, lookup h c with
+    | S d', Some (OCirc ch _) => match dget k ch with Some cc => sub_circ d' h cc rest | None => None end
+    | _, _ => None
+    end
+  end.
+Fixpoint tsub (t : atree) (p : path) : option atree :=
+  match p with
+  | [] => Some t
+  | k :: rest =>
+    match t with
+    | AInner ss _ => match dget k ss with Some s => tsub s rest | None => None end
+    | ALeaf _ _ => None
+    end
+  end.
+
 Definition mstate := (heap * book)%type.
 (* One-line switches, read by harness/c14.py (overridable by VERIF_C14_FIXED / VERIF_C14_EDGES_FIXED).
    fixed_state_carry: true since fix D74 (with in_place=False the state bookkeeping is read from and written to the deep
@@ -138,6 +159,11 @@ Definition mstep_gen (fixed fixed_e f98 : bool) (d : nat) (r : id) (s : mstate) 
   let '(h, b) := s in
   match o with
   | MRead q => ((match q with QEdges => if f98 then h else collect_mut d h r | _ => h end, b), read d r h q)
+  | MSubEdges p =>
+    match sub_circ d h r p with
+    | Some (d', c) => ((if f98 then h else collect_mut d' h c, b), REdges (collect_edges d' h c))
+    | None => (s, REdges None)                                     (* KeyError *)
+    end
   | MToYaml => (s, RDone)
   | MDeepcopy => ((deepcopy_heap d r h, b), RDone)
   | MUpdateTemplate es =>
@@ -163,6 +189,7 @@ Definition mstep_gen (fixed fixed_e f98 : bool) (d : nat) (r : id) (s : mstate) 
 Definition mstepS (d : nat) (t : atree) (o : mop) : mout :=
   match o with
   | MRead q => tread t q
+  | MSubEdges p => REdges (match tsub t p with Some s => Some (tcollect_edges s) | None => None end)
   | MToYaml | MDeepcopy | MUpdateTemplate _ | MNewObject _ => RDone
   | MDeriveEdit sv tv _ => match first_edge (root_edges t) sv tv with Some _ => RDone | None => RRaised end
   | MCompile _ _ => RCompile YDeclared
@@ -182,7 +209,7 @@ Definition mrun := mrun_gen fixed_state_carry fixed_shared_edge_dicts fixed_D98.
 Definition is_derive_edit (o : mop) : bool := match o with MDeriveEdit _ _ _ => true | _ => false end.
 Definition no_derive_edit (ops : list mop) : bool := negb (existsb is_derive_edit ops).
 (* guard of finding D98: no collect_edges / get_edges call on the template (needed only for f98 = false) *)
-Definition is_collect (o : mop) : bool := match o with MRead QEdges => true | _ => false end.
+Definition is_collect (o : mop) : bool := match o with MRead QEdges | MSubEdges _ => true | _ => false end.
 Definition no_collect (ops : list mop) : bool := negb (existsb is_collect ops).
 Definition op_ok (fe f98 : bool) (o : mop) : bool := (fe || negb (is_derive_edit o)) && (f98 || negb (is_collect o)).
 Definition ops_ok (fe f98 : bool) (ops : list mop) : bool := forallb (op_ok fe f98) ops.
@@ -214,6 +241,7 @@ Definition mout_ok (inputs : list string) (m : mout) (p : pymout) : bool :=
   | RNode (Some a), PNodeOps (Some ns) => paths_eqb [map name_of a] [ns]
   | RNode None, PNodeOps None => true
   | REdges (Some es), PEdgeCount (Some n) => Nat.eqb (List.length es) n
+  | REdges None, PEdgeCount None => true
   | REdge (Some a), PEdgeW (Some w) => Qc_eqb (weight_of a) w
   | REdge None, PEdgeW None => true
   | RDone, PDone' => true
